@@ -567,7 +567,119 @@ func (f *Frame) loopClauses(lp *Loop, kind string) []*Clause {
 			}
 		}
 	}
+	// opt auto-counters (sweep mode): a named integer loop variable that starts at a constant and is only ever
+	// incremented by non-negative constants never drops below its start value
+	if kind == "invariant" && f.g.FC.Opts["auto-counters"] != "" {
+		for _, in := range lp.Header.Instrs {
+			phi, ok := in.(*ssa.Phi)
+			if !ok {
+				break
+			}
+			if phi.Comment == "" || phi.Comment == "rangeindex" {
+				continue
+			}
+			if b, isB := phi.Type().Underlying().(*types.Basic); !isB || b.Info()&types.IsInteger == 0 {
+				continue
+			}
+			c, ok := f.lowerBoundOf(phi, 0)
+			if !ok {
+				continue
+			}
+			lo := &c
+			txt := fmt.Sprintf("%s >= %d", phi.Comment, *lo)
+			e, err := ParseExpr(txt)
+			if err != nil {
+				continue
+			}
+			out = append(out, &Clause{Kind: "invariant", Label: "auto-counter-" + phi.Comment, Text: txt, E: e, Loop: lp.Ordinal})
+		}
+	}
 	return out
+}
+
+// lowerBoundOf: a constant lower bound of an integer SSA value built from constants, additions of non-negative
+// constants, merges, and loop counters that are only incremented.
+func (f *Frame) lowerBoundOf(v ssa.Value, depth int) (int64, bool) {
+	if depth > 6 {
+		return 0, false
+	}
+	switch x := v.(type) {
+	case *ssa.Const:
+		if x.Value == nil {
+			return 0, false
+		}
+		if b, isB := x.Type().Underlying().(*types.Basic); !isB || b.Info()&types.IsInteger == 0 {
+			return 0, false
+		}
+		return x.Int64(), true
+	case *ssa.BinOp:
+		if x.Op != token.ADD {
+			return 0, false
+		}
+		if k, ok := x.Y.(*ssa.Const); ok && k.Value != nil && k.Int64() >= 0 {
+			if lb, ok := f.lowerBoundOf(x.X, depth+1); ok {
+				return lb + k.Int64(), true
+			}
+		}
+		return 0, false
+	case *ssa.Phi:
+		lp := f.loopAt[x.Block()]
+		var lo int64
+		have := false
+		for i, pred := range x.Block().Preds {
+			e := x.Edges[i]
+			if lp != nil && lp.Blocks[pred] && f.backEdge[[2]int{pred.Index, x.Block().Index}] {
+				if !onlyIncrements(e, x, lp, 0) {
+					return 0, false
+				}
+				continue
+			}
+			lb, ok := f.lowerBoundOf(e, depth+1)
+			if !ok {
+				return 0, false
+			}
+			if !have || lb < lo {
+				lo, have = lb, true
+			}
+		}
+		return lo, have
+	}
+	return 0, false
+}
+
+// onlyIncrements: v is phi, or phi plus non-negative constants, possibly merged by phis inside the loop.
+func onlyIncrements(v ssa.Value, phi *ssa.Phi, lp *Loop, depth int) bool {
+	return onlyIncrementsRec(v, phi, lp, map[ssa.Value]bool{})
+}
+
+func onlyIncrementsRec(v ssa.Value, phi *ssa.Phi, lp *Loop, seen map[ssa.Value]bool) bool {
+	if v == ssa.Value(phi) || seen[v] {
+		return true // reached the counter itself, or a merge already being examined (coinductively fine)
+	}
+	switch x := v.(type) {
+	case *ssa.BinOp:
+		if x.Op != token.ADD {
+			return false
+		}
+		if k, ok := x.Y.(*ssa.Const); ok && k.Value != nil && k.Int64() >= 0 {
+			return onlyIncrementsRec(x.X, phi, lp, seen)
+		}
+		if k, ok := x.X.(*ssa.Const); ok && k.Value != nil && k.Int64() >= 0 {
+			return onlyIncrementsRec(x.Y, phi, lp, seen)
+		}
+	case *ssa.Phi:
+		if !lp.Blocks[x.Block()] {
+			return false
+		}
+		seen[x] = true
+		for _, e := range x.Edges {
+			if !onlyIncrementsRec(e, phi, lp, seen) {
+				return false
+			}
+		}
+		return true
+	}
+	return false
 }
 
 var autoRangeClause *Clause
